@@ -60,6 +60,17 @@ Outcomes(r) ==
               IN IF f = {} THEN {"ok"} ELSE f
     [] r.op = "get" -> IF Exists(r.k) THEN {"ok"} ELSE {"notfound"}
     [] r.op = "list" -> {"ok"}
+    (* helper operations of state.State that have an RPC of their own (sequential meaning) *)
+    [] r.op = "teardown" ->
+         IF ~Exists(r.k) THEN {"notfound"}
+         ELSE IF store[r.k].phase = "tearingDown" THEN {"ok"}
+         ELSE IF store[r.k].owner # r.owner THEN {"ownerconflict"} ELSE {"ok"}
+    [] r.op = "tad" ->       \* only issued when no finalizer is pending (it would block otherwise)
+         IF ~Exists(r.k) THEN {"notfound"}
+         ELSE IF store[r.k].phase = "running" /\ store[r.k].owner # r.owner THEN {"ownerconflict"}   \* the teardown step
+         ELSE IF store[r.k].fins # {} THEN {"blocked"}                                             \* waits for finalizers
+         ELSE IF store[r.k].owner # r.owner THEN {"ownerconflict"}                                 \* the destroy step
+         ELSE {"ok"}
 
 ImplOutcome(r) ==
   LET o == Outcomes(r) IN
@@ -73,6 +84,9 @@ NewStore(r, cls) ==
   ELSE CASE r.op = "create"  -> Put(store, r.k, Val(r.obj, 1, r.obj.cr))
          [] r.op = "update"  -> Put(store, r.k, Val(r.obj, store[r.k].ver + 1, store[r.k].cr))
          [] r.op = "destroy" -> Del(store, r.k)
+         [] r.op = "teardown" -> IF store[r.k].phase = "tearingDown" THEN store
+                                 ELSE Put(store, r.k, [store[r.k] EXCEPT !.phase = "tearingDown", !.ver = @ + 1])
+         [] r.op = "tad" -> Del(store, r.k)
          [] OTHER -> store
 
 (* What the caller gets back: written-back object for create/update, *)
